@@ -113,6 +113,7 @@ def resolveStrings (fuel : Nat) (st : St) (ty : Node) : List String × St :=
           ([], st.err "Error: Unresolvable type reference or unsupported built-in utility type.")
         else ([], st.err "Error: Types from other modules can't be resolved.")
     | .mk .tsParen _ [t] => resolveStrings fuel st t
+    | .mk .tsKeyword ["never"] _ => ([], st)          -- the empty union
     | _ => ([], st.err "Error: Unsupported type as index key.")
 
 /-- the member types an index type selects out of a member list -/
